@@ -504,6 +504,11 @@ def gen_consts():
     _o, _lld, _lm, _infos = load_lang_infos()
     SL("langsWithoutDateOrder", sorted(n for n, i in _infos.items() if "date_order" not in i), "data/date_translation_data: languages whose data has no date_order of its own")
 
+    cf = Src("dateparser/conf.py")
+    gk = cf.func("Settings.get_key")
+    comps = [n for n in ast.walk(gk) if isinstance(n, (ast.ListComp, ast.GeneratorExp, ast.SetComp))]
+    covers = bool(comps) and all(not g.ifs for c in comps for g in c.generators) and "str(" in ast.unparse(gk) and "sorted(" in ast.unparse(gk)
+    emit("/-- conf.py Settings.get_key: the registry key is built from *every* item of the settings mapping (no item is filtered out), sorted -/\ndef settingsKeyCoversEveryItem : Bool := " + lbool(covers))
     SL("sharedStateInventory", shared_state_inventory(REPO), "process-wide mutable state of the package (outside the data modules): module-level singletons, `global` names, class-level containers, mutated module-level containers, functools caches")
 
     sp = Src("dateparser/utils/strptime.py")
